@@ -65,6 +65,10 @@ Definition ctl_ok (k : kind) (p : cpc) (h : phase) : bool :=
    | _, _ => true
    end) &&
   (match gk_of p, h with Some KFinish, PRun => false | _, _ => true end) &&
+  (match p with
+   | CShut true | CCloseLock true | CCloseStore true | CCloseNotify true | CCloseUnlock true => negb (is_perr h)
+   | _ => true
+   end) &&
   kind_ok k p.
 
 Section P.
